@@ -325,7 +325,7 @@ class Interp:
         if isinstance(v, (ACond,)):
             return None
         if isinstance(v, Opaque):
-            return None if v.kind in ("set", "list", "iter", "maybe-row") else True
+            return None if v.kind in ("set", "list", "iter", "maybe-row", "dict") else True
         if isinstance(v, (RepList, Star)):
             return None
         if isinstance(v, (FuncVal, Builtin, TypeVal, ModVal, Callback, LambdaVal)):
@@ -835,6 +835,12 @@ class Interp:
             return AStr(parts)
         if isinstance(v, Opaque):
             return AStr([Sym("str(%s)" % v.name, "str", True)])
+        if isinstance(v, (TypeVal, Builtin, ModVal, Callback)):
+            return AStr([Sym("str(%s)" % v.name, "str", True)])
+        if isinstance(v, (FuncVal, LambdaVal)):
+            return AStr([Sym("str(function)", "str", True)])
+        if isinstance(v, dict):
+            return AStr([Sym("str(dict)", "str", True)])
         raise Unsupported("str() of %r" % (v,))
 
     def e_UnaryOp(self, node, env):
@@ -1018,6 +1024,12 @@ class Interp:
                 except IndexError:
                     raise RaiseEx("IndexError", "index %s" % key, node)
             raise Unsupported("index %r" % (key,))
+        if isinstance(base, Opaque) and base.name == "self":
+            func = env.get("__func__")
+            c_ = getattr(func, "cls", None)
+            m_ = self.proj.method(c_, "__getitem__") if c_ is not None else None
+            if m_ is not None and m_.qual in self.summaries:
+                return self.summaries[m_.qual](self, [key], {}, node)
         if isinstance(base, Opaque) and base.attrs:
             # an object of a package class that defines __getitem__: dispatch to it
             m_ = self._class_method(base.kind, "__getitem__")
@@ -1026,6 +1038,15 @@ class Interp:
         if isinstance(base, (Sym, Opaque)):
             return Sym("%s[%s]" % (base.name, _nm(key)), "any", None)
         raise Unsupported("subscript of %r" % (base,))
+
+    def _copy_of(self, v):
+        if isinstance(v, (dict, list)):
+            return copy.deepcopy(v)
+        if isinstance(v, Opaque):
+            o = Opaque("copy(%s)" % v.name, v.kind)
+            o.attrs.update(v.attrs)
+            return o
+        return v
 
     def _class_method(self, kind, name):
         cs = [c for q, c in self.proj.classes.items() if q.split(".")[-1] == kind]
@@ -1128,7 +1149,7 @@ class Interp:
             if fn.name in self.ext_summaries:
                 return self.ext_summaries[fn.name](self, pos, kw, node)
             if fn.name in ("copy.copy", "copy.deepcopy") and pos:
-                return copy.deepcopy(pos[0]) if isinstance(pos[0], (dict, list)) else pos[0]
+                return self._copy_of(pos[0])
         if isinstance(fn, Callback):
             self.trace.events.append(("callback", fn, pos, kw, node))
             return fn.result
@@ -1543,7 +1564,7 @@ class Interp:
             if full in self.ext_summaries:
                 return self.ext_summaries[full](self, pos, kw, node)
             if full in ("copy.copy", "copy.deepcopy") and pos:
-                return copy.deepcopy(pos[0]) if isinstance(pos[0], (dict, list)) else pos[0]
+                return self._copy_of(pos[0])
         # ---- opaque receivers
         if isinstance(base, (Opaque, Sym)) and isinstance(base.attrs.get(attr), (Callback, FuncVal, LambdaVal, Builtin, TypeVal)):
             # an attribute holding a callable (self.transform)
